@@ -7,7 +7,8 @@
 (* where B is required, under covariant generics".                          *)
 (*                                                                         *)
 (* This module is purely definitional (no VARIABLES).  It gives            *)
-(*   1. the annotation grammar (records),                                   *)
+(*   1. the annotation grammar (records), including WHAT KIND OF OBJECT the *)
+(*      metadata of an Annotated is (hashable or not),                      *)
 (*   2. the reference relation  Sub(A, B, f)  by structural rules, where    *)
 (*      the flag record f decides the three DON'T-CARE classes,             *)
 (*   3. the verdict  Verdict(A, B) \in {"yes", "no", "either"},             *)
@@ -36,12 +37,30 @@ EXTENDS Naturals, Sequences, FiniteSets
 (*   union     <<T1..Tn>>  Union[T1, ..., Tn]  (n >= 2)                     *)
 (*   opt       <<T>>       Optional[T]  ( = Union[T, None] )                *)
 (*   ann       <<T>>       Annotated[T, <opaque non-string metadata>]       *)
+(*   annlist anndict annset anndata annfrozen                               *)
+(*             <<T>>       Annotated[T, m] for other KINDS of metadata m,   *)
+(*                         see "metadata" below                             *)
 (*   array     <<T>>       pipefunc.typing.Array[T]                         *)
 (*   tvar      <<>>        a free TypeVar                                   *)
 (*   tvbound   <<B>>       TypeVar(bound=B)                                 *)
 (*   tvcons    <<C1, C2>>  TypeVar(.., C1, C2)                              *)
 (* Equal records denote the same Python object (in particular the same      *)
 (* TypeVar); NoAnn only occurs at the top of an annotation.                 *)
+(*                                                                         *)
+(* METADATA.  The extra arguments of Annotated are arbitrary Python OBJECTS *)
+(* (PEP 593: units, validators, documentation, ...), not types: nothing      *)
+(* says that they can be hashed, and two annotations written in two places   *)
+(* carry two objects that are at best EQUAL.  The kind of an Annotated       *)
+(* record says what its metadata object is:                                  *)
+(*   ann        an instance of a plain class   (hash and == by identity)     *)
+(*   annlist    a list          ["a", "list"]   (== by value, NO hash)       *)
+(*   anndict    a dict          {"doc": "text"} (== by value, NO hash)       *)
+(*   annset     a set           {"a", "set"}    (== by value, NO hash)       *)
+(*   anndata    an instance of a @dataclass     (== by value, NO hash:       *)
+(*              eq=True without frozen=True sets __hash__ to None)           *)
+(*   annfrozen  an instance of a @dataclass(frozen=True) (== and hash by value) *)
+(* Whatever it is, the metadata says nothing about the set of values (Strip, *)
+(* Erase, LawMetadataSilent below).                                          *)
 At(k)        == [k |-> k, a |-> <<>>]
 Mk1(k, x)    == [k |-> k, a |-> <<x>>]
 Mk2(k, x, y) == [k |-> k, a |-> <<x, y>>]
@@ -51,6 +70,9 @@ NoneT == At("None") AnyT == At("Any")    NoAnn == At("NoAnn")   TVar == At("tvar
 ListOf(x) == Mk1("list", x)   SetOf(x) == Mk1("set", x)   DictOf(x, y) == Mk2("dict", x, y)
 Tup1(x) == Mk1("tuple", x)    Tup2(x, y) == Mk2("tuple", x, y)   VTup(x) == Mk1("vtuple", x)
 UnionOf(x, y) == Mk2("union", x, y)   Opt(x) == Mk1("opt", x)   Ann(x) == Mk1("ann", x)
+AnnKinds         == {"ann", "annlist", "anndict", "annset", "anndata", "annfrozen"}
+UnhashableKinds  == {"annlist", "anndict", "annset", "anndata"}     \* hash(metadata) raises TypeError
+AnnM(k, x)       == Mk1(k, x)                                         \* k \in AnnKinds
 ArrayOf(x) == Mk1("array", x)   TVBound(x) == Mk1("tvbound", x)   TVCons(x, y) == Mk2("tvcons", x, y)
 
 Classes  == {"int", "bool", "float", "str", "bytes", "None"}     \* nominal classes
@@ -61,21 +83,31 @@ IsBare(A)  == A.k \in (Generics \cup {"tuple"}) /\ A.a = <<>>
 IsTuple(A) == A.k \in {"tuple", "vtuple"}
 IsTV(A)    == A.k \in TVKinds
 IsUnion(A) == A.k \in {"union", "opt"}
+IsAnn(A)   == A.k \in AnnKinds
 
 RECURSIVE Depth(_)
 Depth(A) == IF A.a = <<>> THEN 0
             ELSE 1 + (CHOOSE m \in {Depth(A.a[i]) : i \in DOMAIN A.a} :
                           \A n \in {Depth(A.a[i]) : i \in DOMAIN A.a} : n <= m)
 
-(* Annotated[...] says nothing about the set of values: it is stripped everywhere. *)
+(* Annotated[...] says nothing about the set of values: it is stripped everywhere, whatever its metadata is. *)
 RECURSIVE Strip(_)
-Strip(A) == IF A.k = "ann" THEN Strip(A.a[1]) ELSE A
+Strip(A) == IF IsAnn(A) THEN Strip(A.a[1]) ELSE A
+
+(* The annotation with EVERY Annotated wrapper removed, at any depth (the declaration of a TypeVar is left *)
+(* alone: TypeVars are compared as objects).                                                             *)
+RECURSIVE Erase(_)
+Erase(A) == IF IsAnn(A) THEN Erase(A.a[1])
+            ELSE IF IsTV(A) \/ A.a = <<>> THEN A
+            ELSE [k |-> A.k, a |-> [i \in DOMAIN A.a |-> Erase(A.a[i])]]
+RECURSIVE HasUnhashableMeta(_)
+HasUnhashableMeta(A) == A.k \in UnhashableKinds \/ \E i \in DOMAIN A.a : HasUnhashableMeta(A.a[i])
 
 (* The (stripped, non-union) alternatives of a union-like annotation. *)
 RECURSIVE Members(_)
 Members(A) == CASE A.k = "union" -> UNION {Members(A.a[i]) : i \in DOMAIN A.a}
                 [] A.k = "opt"   -> Members(A.a[1]) \cup {NoneT}
-                [] A.k = "ann"   -> Members(A.a[1])
+                [] IsAnn(A)      -> Members(A.a[1])
                 [] OTHER         -> {A}
 
 ---------------------------------------------------------------------------
@@ -217,6 +249,13 @@ LawCovariant(A, B, f) ==
         /\ Sub(Tup2(A, IntT), Tup2(B, IntT), f) = s /\ Sub(Tup2(IntT, A), Tup2(IntT, B), f) = s
         /\ s => Sub(Opt(A), Opt(B), f)
         /\ s => Sub(A, TVBound(B), f)
+(* Annotated metadata is SILENT: erasing every Annotated wrapper on both sides -- whatever kind of object the *)
+(* metadata is, hashable or not, at the top or inside a union / generic / Array -- changes no verdict          *)
+LawMetadataSilent(A, B, f) == Sub(A, B, f) = Sub(Erase(A), Erase(B), f)
+(* ... and WHAT the metadata is plays no part: an Annotated of any kind around either side is that side        *)
+LawMetadataKind(A, B, f)   == (~HasNoAnn(A) /\ ~HasNoAnn(B)) =>
+                                  \A k \in AnnKinds : /\ Sub(AnnM(k, A), B, f) = Sub(A, B, f)
+                                                       /\ Sub(A, AnnM(k, B), f) = Sub(A, B, f)
 (* arity: tuples of different fixed arity are never related; a variadic tuple is never a fixed one *)
 LawArity(A, B, f) == (~HasNoAnn(A) /\ ~HasNoAnn(B)) =>
                         /\ ~Sub(Tup2(A, A), Tup1(B), f)
@@ -264,6 +303,14 @@ Construct(edges, validate) ==
 (* laws of the pipeline rule *)
 LawFlagOff(edges)       == Construct(edges, FALSE) = "accept"
 LawUncheckedEdge(P, C)  == \A v \in UncheckedVias : EdgeVerdict(P, C, v) = "yes"
+(* metadata is silent on an edge too, however the edge is taken: in particular a reduced output counts as    *)
+(* Array[P] (or, don't-care, stays the Array it already is) for P with and without its metadata alike --     *)
+(* `is_object_array_type(output_type)` is a question about Strip(P)                                          *)
+LawMetadataSilentEdge(P, C, via) == EdgeVerdict(P, C, via) = EdgeVerdict(Erase(P), Erase(C), via)
+ErasedEdges(edges)      == [i \in DOMAIN edges |-> [p |-> Erase(edges[i].p), c |-> Erase(edges[i].c), via |-> edges[i].via]]
+LawMetadataSilentPipe(edges, validate) ==
+    /\ \A i \in DOMAIN edges : LawMetadataSilentEdge(edges[i].p, edges[i].c, edges[i].via)
+    /\ Construct(edges, validate) = Construct(ErasedEdges(edges), validate)
 LawReduceWraps(P, C)    == (~HasNoAnn(P) /\ ~HasNoAnn(C) /\ Strip(P).k # "array") =>
                                /\ EdgeVerdict(P, ArrayOf(C), "reduce") = EdgeVerdict(P, C, "emap")
                                /\ EdgeVerdict(P, C, "direct") = EdgeVerdict(P, C, "emap")
